@@ -30,7 +30,7 @@ var spec = lib.Spec{
 		"Surefire flakyFailure/flakyError (flaky pass) and rerunFailure/rerunError children, repeated case names, names/classnames/messages with XML metacharacters, quotes, whitespace, non-ASCII, `]]>`; go subtests, parallel tests, repeated runs; " +
 		"rendered by the harness's own writers with layout variations (declaration, indentation, CDATA, single-quoted attributes, numeric character references, comments). " +
 		"Oracles: (parse) test.VerifParseResults gives Tests/Passes/Failures/Errors/Skips/FlakyPasses and the multiset of (outcome, classname, name) equal to the generated ones, and AllSucceeded <=> no failed/errored case; " +
-		"(output) parseTestOutput with an exit status: consistent status keeps the counts, an inconsistent one never yields a passing suite; " +
+		"(mangle) the same files with 1-4 byte-level damages (overwrite, truncate, delete, duplicate tail) must not crash the parser; (output) parseTestOutput with an exit status: consistent status keeps the counts, an inconsistent one never yields a passing suite; " +
 		"(e2e) `plz test` on gentest targets whose k-th run writes the k-th generated results file to $RESULTS_FILE with `flaky = n`: number of runs = first all-ok run (at most n), target passes <=> such a run exists, exit status 0 <=> all targets pass, per-target summary counts agree. " +
 		"Non-trivial = >= 3 distinct outcome kinds, or a name that needs escaping, or a flaky pass; distinct = canonical JSON of the case",
 	Assumptions: []string{
@@ -67,7 +67,18 @@ type e2eCase struct {
 	Targets []e2eTarget
 }
 
+// mangleCase: rendered files with byte-level damage; the parser may reject them but must not crash.
+type mangleCase struct {
+	Files []TFile
+	Muts  []mut
+}
+
+type mut struct {
+	File, Pos, Kind, Byte int
+}
+
 type anyCase struct {
+	Mangle *mangleCase `json:",omitempty"`
 	Parse  *parseCase  `json:",omitempty"`
 	Output *outputCase `json:",omitempty"`
 	E2E    *e2eCase    `json:",omitempty"`
@@ -248,6 +259,14 @@ func genFiles(t *rapid.T, kinds []string) []TFile {
 }
 
 func gen(t *rapid.T) anyCase {
+	if uni(t, 8, "mangle") == 0 {
+		mc := &mangleCase{Files: genFiles(t, allKinds)}
+		n := 1 + uni(t, 4, "nmuts")
+		for i := 0; i < n; i++ {
+			mc.Muts = append(mc.Muts, mut{File: uni(t, len(mc.Files), "mf"), Pos: uni(t, 4096, "mp"), Kind: uni(t, 4, "mk"), Byte: uni(t, 256, "mb")})
+		}
+		return anyCase{Mangle: mc}
+	}
 	if uni(t, 4, "which") == 0 {
 		oc := &outputCase{Files: genFiles(t, allKinds)}
 		exp, _ := expectCounts(oc.Files)
@@ -437,8 +456,43 @@ func runOutput(c outputCase, o *lib.Obs) error {
 	return nil
 }
 
+// runMangle: damaged result files. Any verdict is acceptable except a crash (lib turns a panic into a violation).
+func runMangle(c mangleCase, o *lib.Obs) error {
+	quiet()
+	data := renderAll(c.Files)
+	for _, m := range c.Muts {
+		if m.File >= len(data) || len(data[m.File]) == 0 {
+			continue
+		}
+		d := data[m.File]
+		p := m.Pos % len(d)
+		switch m.Kind {
+		case 0: // overwrite
+			d[p] = byte(m.Byte)
+		case 1: // truncate
+			d = d[:p]
+		case 2: // delete a byte
+			d = append(d[:p:p], d[p+1:]...)
+		default: // duplicate the tail
+			d = append(d, d[p:]...)
+		}
+		data[m.File] = d
+	}
+	suite, err := plztest.VerifParseResults(data)
+	o.LabelIf(err != nil, "mangled_rejected")
+	if err == nil {
+		// the count methods must work on whatever was parsed
+		_ = gotCounts(&suite)
+		_ = suite.TestCases.AllSucceeded()
+	}
+	return nil
+}
+
 func runAny(c anyCase, o *lib.Obs) error {
 	switch {
+	case c.Mangle != nil:
+		o.Label("mangle")
+		return runMangle(*c.Mangle, o)
 	case c.Parse != nil:
 		o.Label("parse")
 		return runParse(*c.Parse, o)
